@@ -156,10 +156,8 @@ def typeOf (tb : Table) (nm : Names) (ss : List TStmt) : Option St :=
 def definedFrom : List String → List TStmt → Bool
   | _, [] => true
   | names, s :: ss =>
-    (match s.kind with
-     | .select => s.list.all (fun m => names.contains m)
-     | _ => true) &&
-    definedFrom (match s.kind with | .as_ => s.name :: names | _ => names) ss
+    (if s.kind == .select then s.list.all (fun m => names.contains m) else true) &&
+    definedFrom (if s.kind == .as_ then s.name :: names else names) ss
 
 /-- Well-formed aggregations: every aggregation carries a type. -/
 def aggsTyped (ss : List TStmt) : Bool := ss.all (fun s => !s.unk)
